@@ -55,19 +55,22 @@ pub(super) fn get_highest_index(file_spec: &FileSpec) -> Option<u32> {
     for file in
         super::list_and_cleanup::list_of_log_and_compressed_files(file_spec, &InfixFilter::Numbrs)
     {
-        let name = file.file_stem().unwrap(/*ok*/).to_string_lossy();
-        let infix = if file_spec.has_basename()
-            || file_spec.has_discriminant()
-            || file_spec.uses_timestamp()
-        {
-            // infix is the last, but not the first part of the name, starts with _r
-            match name.rsplit("_r").next() {
-                Some(infix) => infix,
-                None => continue, // ignore unexpected files
-            }
+        // the infix is what follows the fixed name part (dots and "_r" can occur in every
+        // other part of the name as well)
+        let name = file
+            .file_name()
+            .map(|s| s.to_string_lossy().to_string())
+            .unwrap_or_default();
+        let fixed_name_part = file_spec.fixed_name_part();
+        let infix = if fixed_name_part.is_empty() {
+            // infix is the first part of the name, just skip over the r
+            name.strip_prefix('r')
         } else {
-            // infix is the only part of the name, just skip over the r
-            &name[1..]
+            name.strip_prefix(fixed_name_part.as_str())
+                .and_then(|s| s.strip_prefix("_r"))
+        };
+        let Some(infix) = infix else {
+            continue; // ignore unexpected files
         };
 
         // (the infix can be followed by the suffix, if the file is compressed)
